@@ -317,6 +317,8 @@ def run(ck):
         "one kernel obligation (checkScrew = screw order of every operation by witness + separating functionals, census of "
         "(det, trace, screw order) per coset against the committed reference of number %% 1000) per setting; the same census "
         "recomputed by an independent Python oracle on every setting; "
+        "every setting certified affinely equivalent (det P > 0) to the frozen reference setting of number %% 1000 by an exactly "
+        "verified (P, p, index maps) certificate (harness/c03_equiv.py); "
         "distinct_nontrivial = settings with more than one operation" % (nset, len(SHAPES)))
     # 1. Lean obligations (group/metadata certificates, and the lattice-rule certificates of C03b)
     from translate import latpar
@@ -344,8 +346,12 @@ def run(ck):
     oracle_fail = {}
     census_fail = {}
     cref = census_reference()
+    notgroup = set()
     for pos, sg in bypos.items():
-        r = group_oracle(sg) or counts_oracle(sg)
+        r = group_oracle(sg)
+        if r:
+            notgroup.add(pos)
+        r = r or counts_oracle(sg)
         ck.coverage["evaluations"] += 1
         # the space-group type implied by the operations vs the International Tables number (number % 1000)
         try:
@@ -358,6 +364,19 @@ def run(ck):
             ck.coverage["distinct_nontrivial"] += 1
         if r:
             oracle_fail[pos] = r
+    # space-group TYPE by explicit equivalence certificates against the frozen reference setting of number % 1000
+    # (harness/c03_equiv.py; results are merged into the `ittype:` verdicts below)
+    from . import c03_equiv
+
+    eqres = c03_equiv.run_equiv(ck, sgs.SpaceGroupList, skip_pos=notgroup)
+    eq_fail = eqres["failed"]
+    ck.coverage["itequiv"] = {"certified": eqres["certified"], "uncertified": len(eqres["uncertified"]),
+                              "uncertified_settings": eqres["uncertified"], "failed": len(eq_fail), "skipped": eqres["skipped"],
+                              "by_crystal_system": eqres["by_system"], "certificate_sources": eqres["sources"],
+                              "edited_references_still_equivalent": eqres["edited_references"]}
+    for e_ in eqres["edited_references"]:
+        ck.notes.append("reference setting #%s differs from the frozen operation list but is equivalent to it: %s" % (
+            e_["number"], c03_equiv.cert_text(e_["certificate"])))
     # translator findings -> verdicts
     for b in rep["bad"]:
         sg = bypos[b["pos"]]
@@ -381,11 +400,18 @@ def run(ck):
             continue
         ck.fail("ittype:%s" % b["number"], "setting %s (#%s): %s" % (sg.short_name, b["number"], (o or {}).get("what") or b["why"]),
                 {"kind": "table-obligation", "setting": b["number"], "stream": "ittype", "theorem": thm,
-                 "detail": o or {"what": b["why"]}, "certificate": {k: b.get(k) for k in ("stage", "census", "expected")}})
+                 "detail": o or {"what": b["why"]}, "certificate": {k: b.get(k) for k in ("stage", "census", "expected")},
+                 "equivalence": eq_fail.pop(b["pos"], None)})
     for pos, cr in census_fail.items():
         sg = bypos[pos]
         ck.fail("ittype:%s" % sg.number, "setting %s (#%s): %s" % (sg.short_name, sg.number, cr["what"]),
-                {"kind": "oracle", "setting": sg.number, "stream": "ittype", "detail": cr})
+                {"kind": "oracle", "setting": sg.number, "stream": "ittype", "detail": cr, "equivalence": eq_fail.pop(pos, None)})
+    # settings the census cannot tell from their declared type but that no change of axes / origin maps onto its reference
+    for pos, er in sorted(eq_fail.items()):
+        sg = bypos[pos]
+        ck.fail("ittype:%s" % sg.number, "setting %s (#%s): %s" % (sg.short_name, sg.number, er["what"]),
+                {"kind": "oracle", "setting": sg.number, "stream": "itequiv", "detail": er,
+                 "theorem": "no DS.Gen.sg%s_equiv (DS.Props.C03d)" % sg.number})
     for u in rep["untranslatable"]:
         o = oracle_fail.pop(u["pos"], None)
         ck.fail("untranslatable:%s" % u["number"], "setting #%s: %s" % (u["number"], u["why"]),
@@ -536,12 +562,20 @@ def run(ck):
     ck.coverage["trusted_base"] += ["translate/tables.py (float->24ths conversion, metadata reading; cross-checked against ast literals)",
                                     "class table / centring table in DS/Model/Sym.lean (reference data)",
                                     "lean/DS/Ref/ItCensus.lean = harness/c03_itcensus.json (reference census of the 230 types; committed, "
-                                    "checked to be in sync)"]
+                                    "checked to be in sync)",
+                                    "harness/c03_equiv.json: operation lists of the 230 standard settings frozen from the pinned tree "
+                                    "(reference data; committed, never written at run time)"]
     ck.assumptions += ["lattice-compatibility clause is decided by the implementation-side exact oracle on the group-averaged metric "
                        "(Lean theorem latpar_complete not yet part of the obligations)",
                        "IT number is checked at the level of crystal class + centring + order + rotation/screw and mirror/glide census "
-                       "per coset of the translation group (kernel-checked per setting, DS.Props.C03c); types that share all of these "
-                       "(e.g. enantiomorphic pairs, I222 / I212121) are not told apart"]
+                       "per coset of the translation group (kernel-checked per setting, DS.Props.C03c), and by an explicit affine "
+                       "equivalence (P, p), det P > 0, with the frozen standard setting of number % 1000 (harness/c03_equiv.json), "
+                       "verified exactly for all operations in both directions; that the 230 frozen operation lists are the 230 "
+                       "types of International Tables is reference data (mmLib standard settings, cross-checked by the census "
+                       "and by the cctbx-generated alternative settings being equivalent to them)",
+                       "a setting without a certificate is reported only when the finite candidate list (unimodular U with entries "
+                       "<= 2 between primitive lattice bases) is exhausted; the report names the type the operations ARE a "
+                       "setting of when a certificate against another reference of the crystal class exists"]
     if ck.tier == "thorough":
         thorough(ck)
 
@@ -585,6 +619,10 @@ def replay(path):
         after = (id(sg.symop_list), [(o.R.tolist(), o.t.tolist()) for o in sg.symop_list])
         print("tabulated object unchanged by the lookup:", before == after)
         return 0 if before == after else 1
+    if r.get("stream") == "itequiv":
+        from . import c03_equiv
+
+        return c03_equiv.replay_setting(sg)
     if r.get("stream") == "ittype":
         cr = census_oracle(sg, census_reference())
         print("type census:", cr["what"] if cr else "agrees with No. %d" % (sg.number % 1000))
